@@ -175,6 +175,7 @@ type c18Diff struct {
 	printed map[string]bool
 	perKey  map[string]int
 	okMemo  map[string]string // printed context text + mode -> failure kind ("" = round trip fine)
+	table   *c18TableEval
 }
 
 func newC18Diff(meta *Meta) *c18Diff {
@@ -327,9 +328,20 @@ func (d *c18Diff) run(in c18Input, prep, ansi bool) {
 		d.violation(key, fmt.Sprintf("%s: String() of a %s node gives %q, which %s (%s)", key, c18TypeName(cn), ctext,
 			map[string]string{"print-reparse": "does not parse", "print-differs": "parses to a tree that prints differently", "print-panic": "panics"}[ck], cdetail), cc)
 	}
+	// structural identity of SELECT statements that cannot be evaluated here (search heuristic: the tree
+	// parsed from the printed text must be the tree that was printed, up to positions and spellings)
+	if !in.Eval && !in.Table && (strings.HasPrefix(in.Origin, "corpus") || in.Origin == "test-suite") {
+		for _, st := range res.stmts {
+			d.treeIdentity(in, st, prep, ansi)
+		}
+	}
 	// evaluation identity for the expression corpus
 	if in.Eval && len(res.stmts) == 1 {
 		d.evalIdentity(in, res.stmts[0], prep, ansi)
+	}
+	// ... and for queries over the fixed tables
+	if in.Table && len(res.stmts) == 1 {
+		d.tableIdentity(in, res.stmts[0], prep, ansi)
 	}
 }
 
@@ -411,7 +423,124 @@ func (d *c18Diff) evalIdentity(in c18Input, st parser.Statement, prep, ansi bool
 	}
 }
 
+func (d *c18Diff) treeIdentity(in c18Input, st parser.Statement, prep, ansi bool) {
+	sq, ok := st.(parser.SelectQuery)
+	if !ok {
+		return
+	}
+	text, pan := c18SafeString(sq)
+	if pan != "" {
+		return
+	}
+	mk := fmt.Sprintf("T%v%v|%s", prep, ansi, text)
+	if _, done := d.okMemo[mk]; done {
+		return
+	}
+	d.okMemo[mk] = ""
+	res := c18Parse(text, prep, ansi)
+	if res.err != nil || res.pan != "" || res.timeout || len(res.stmts) != 1 {
+		return // reported by the round-trip check
+	}
+	sq2, ok := res.stmts[0].(parser.SelectQuery)
+	if !ok {
+		return
+	}
+	if t2, _ := c18SafeString(sq2); t2 != text {
+		return // reported by the round-trip check
+	}
+	d.meta.Distribution["tree-identity:checked"]++
+	where := c18TreeDiff(reflect.ValueOf(sq), reflect.ValueOf(sq2), "SelectQuery")
+	if where == "" {
+		return
+	}
+	key := "tree-differs:" + where
+	if strings.HasPrefix(where, "Function->") {
+		// the known finding print-reparse:Function seen from the other side: a function called through a
+		// quoted identifier whose name, printed bare and upper-cased, is an aggregate / analytic function
+		key = "print-reparse:Function"
+	}
+	d.violation(key, fmt.Sprintf("%s: %q prints as %q, which parses to a different query although it prints identically (the syntax trees part in a %s node); the query cannot be evaluated by the harness", key, in.Src, text, where),
+		map[string]interface{}{"kind": "tree-identity", "origin": in.Origin, "src": in.Src, "printed": text, "node": where, "prepared": prep, "ansi_quotes": ansi, "tags": []string{key}})
+}
+
+// tableIdentity: query.Select on the parsed query and on the query parsed from its printed text
+func (d *c18Diff) tableIdentity(in c18Input, st parser.Statement, prep, ansi bool) {
+	sq, ok := st.(parser.SelectQuery)
+	if !ok {
+		return
+	}
+	text, pan := c18SafeString(sq)
+	if pan != "" {
+		return
+	}
+	res := c18Parse(text, prep, ansi)
+	if res.err != nil || res.pan != "" || res.timeout || len(res.stmts) != 1 {
+		return // reported by the round-trip check
+	}
+	sq2, ok := res.stmts[0].(parser.SelectQuery)
+	if !ok {
+		return
+	}
+	if d.table == nil {
+		d.table = newC18TableEval()
+	}
+	// csvq leaves the order of the records open where the query does (no ORDER BY, ties): only queries
+	// whose ORDER BY is total are compared as sequences, the others as header + multiset of records
+	canon := func(r string) string {
+		if in.Ordered {
+			return r
+		}
+		return c18SortLines(r)
+	}
+	r1, r2 := canon(d.table.run(sq)), canon(d.table.run(sq2))
+	d.meta.Evaluations++
+	switch {
+	case r1 == "error" || r1 == "panic" || r1 == "timeout":
+		d.meta.Distribution["table-eval:"+r1]++
+		if os.Getenv("C18_DEBUG") != "" {
+			fmt.Fprintf(os.Stderr, "TABLE-%s %q\n", r1, in.Src)
+		}
+	default:
+		d.meta.Distribution[fmt.Sprintf("table-eval:rows=%d", strings.Count(r1, "\n"))]++
+	}
+	if r1 == r2 {
+		return
+	}
+	// a query whose own result changes from run to run (ties inside an OVER clause) is not compared
+	stable := true
+	for i := 0; i < 3 && stable; i++ {
+		stable = canon(d.table.run(sq)) == r1 && canon(d.table.run(sq2)) == r2
+	}
+	if !stable {
+		d.meta.Distribution["table-eval:unstable-not-compared"]++
+		if os.Getenv("C18_DEBUG") != "" {
+			fmt.Fprintf(os.Stderr, "TABLE-UNSTABLE %q\n", in.Src)
+		}
+		return
+	}
+	where := c18TreeDiff(reflect.ValueOf(sq), reflect.ValueOf(sq2), "SelectQuery")
+	if where == "" {
+		where = "SelectQuery"
+	}
+	key := "eval-differs:" + where
+	d.violation(key, fmt.Sprintf("%s: the query %q and its printed form %q give different results (the syntax trees part in a %s node)", key, in.Src, text, where),
+		map[string]interface{}{"kind": "table-eval", "src": in.Src, "printed": text, "result": r1, "result_of_printed": r2, "node": where, "prepared": prep, "ansi_quotes": ansi, "tags": []string{key},
+			"tables": "wt(id,g,n,f,s) 8 rows, wt2(id,v) 6 rows: harness/c18_table.go"})
+}
+
+// c18SortLines: the header line, then the record lines sorted
+func c18SortLines(r string) string {
+	ls := strings.Split(r, "\n")
+	if len(ls) > 2 {
+		sort.Strings(ls[1:])
+	}
+	return strings.Join(ls, "\n")
+}
+
 func (d *c18Diff) finish() {
+	if d.table != nil {
+		d.table.Close()
+	}
 	var ok []string
 	for mk, k := range d.okMemo {
 		t := mk[strings.Index(mk, "|")+1:]
